@@ -273,7 +273,12 @@ func mimeOfExt(ext string) string {
 
 var pnames = []string{"a", "b", "version", "charset", "format", "level"}
 var pvalsTok = []string{"1", "2", "utf-8", "flowed", "x"}
-var pvalsQuotedOnly = []string{"x,y", `x"y`, `x\y`, "x;q=0", "x y", ",", `"`}
+
+// logical (unescaped) values that need a quoted-string; prm.render escapes '"' and '\' as
+// quoted-pairs. The second row ends in an escaped backslash or stacks backslashes and quotes:
+// `dir\` is spelled "dir\\", `x\"` is spelled "x\\\"" — the closing quote follows a backslash there.
+var pvalsQuotedOnly = []string{"x,y", `x"y`, `x\y`, "x;q=0", "x y", ",", `"`,
+	`dir\`, `\`, `\\`, `a\\b`, `x\"`, `"\`, `x\",y`, `c:\d\`, `\"\`}
 
 var qLits = []string{"0.001", "0.1", "0.3", "0.5", "0.50", "0.500", "0.7", "0.9", "0.999", "1", "1.", "1.0", "1.000", "0.25", "0.75"}
 var qZero = []string{"0", "0.", "0.0", "0.00", "0.000"}
